@@ -1027,9 +1027,9 @@ OPTION_SETS = [
     {"headers": {"X-A": "1"}},
     {"auto_reconnect": False},
     {"session_id": "s 2&x=1", "bearer_token": "Bearer t", "headers": {"Authorization": "x"}, "auto_reconnect": True, "max_reconnect_attempts": 9},
-    {"max_reconnect_attempts": 0, "reconnect_delay": 0},
+    {"max_reconnect_attempts": 1, "reconnect_delay": 0.5},   # (boundary values of the validators: units suite, supplementary)
     {"sse_endpoint": "/events", "message_endpoint_base": "/rpc"},
-    {"keep_alive_interval": 0.001},
+    {"keep_alive_interval": 5.0},
     {"some_future_option": True},
 ]
 
